@@ -156,7 +156,7 @@ def gen_c02(tier, rng):
     return with_histories(with_moved(out, rng, 6000 if tier == "thorough" else 1500), rng, 2400 if tier == "thorough" else 600)
 
 
-ENV_VALUES = [None, "", "v", "--a=b", "-5", "-", "a;b", ";", "x;", "a=b", ";;", "a;;b", " ", "TRUE", "off", "maybe",
+ENV_VALUES = [None, "", "v", "--a=b", "-5", "-", "a;b", ";", "x;", "a=b", ";;", "a;;b", ";a", " ", "TRUE", "off", "maybe",
               "\xff;\x01",
               # the environment says exactly what the declared default says (option "dv", multi-option d1;d2)
               "dv", "d1;d2", "cli"]
@@ -299,6 +299,7 @@ def gen_c04(tier, rng):
             for n in longs:
                 out.append(pcase("C04", d, {}, ["--" + n, m]))
             out.append(pcase("C04", d, {}, ["--", m, "--" + m]))
+    # (histories on inconsistent declarations: see below, behind the single parses)
     # inconsistent declarations: two options share a letter / an option is called no-<toggle>
     bad1 = D([O("t", "a", "x"), O("o", "b", "x", flag=True)], allowed=None)
     bad2 = D([O("t", "x", "x", flag=True), O("o", "no-x", flag=True)], allowed=None)
@@ -306,6 +307,8 @@ def gen_c04(tier, rng):
     for d in (bad1, bad2, bad3):
         for argv in ([], ["-x"], ["--no-x"], ["v"], ["--b", "1"], ["---"]):
             out.append(pcase("C04", d, {}, argv))
+            for argv2 in ([], ["-x"], ["v"]):
+                out.append(hcase(d, [({}, argv), ({}, argv2)]).replace("\tC14\t", "\tC04\t", 1))
     # unparsable environment words for a toggle (one of the documented conditions): documented words, case variants
     # that are not documented, near misses
     dt = D([O("t", "tog", "t", env="NV_T"), O("t", "rev", "r", env="NV_R", flag=True, dflt=1)], allowed=0)
@@ -313,6 +316,14 @@ def gen_c04(tier, rng):
         out.append(pcase("C04", dt, {"NV_T": w}, []))
         out.append(pcase("C04", dt, {"NV_R": w}, []))
         out.append(pcase("C04", dt, {"NV_T": w}, ["-t"]))
+    # whatever a bound environment variable holds, the parse returns or raises the user-input error (it does not hang
+    # on a list with empty elements, crash on bytes, or let another exception out)
+    de = D([O("m", "inc", "I", env="NV_M", flag=True), O("m", "need", "N", env="NV_Q"), O("o", "opt", "o", env="NV_O", flag=True),
+            O("t", "tog", "t", env="NV_T")], allowed=1)
+    for ev in [e for e in ENV_VALUES if e is not None] + [";;a;;", "a;" * 50, ";" * 200, "\x00;a"[1:], "a\nb;c"]:
+        for var in ("NV_M", "NV_Q", "NV_O", "NV_T"):
+            for argv in ([], ["p"], ["-I", "x"]):
+                out.append(pcase("C04", de, {var: ev}, argv))
     # very long tokens (stack depth of the old regular expression)
     d = ts[0]
     for n in (1000, 20000, 200000) + ((400000,) if big else ()):
@@ -384,6 +395,13 @@ def gen_c11(tier, rng):
     al3 = ["--no-cache", "-n", "-nn", "--no-no-cache", "--no-wait", "-w", "-nw", "--no-no-wait", "--other", "--no-other"]
     for argv in og.all_argv(al3, 3 if big else 2):
         out.append(pcase("C11", d3, {}, argv))
+    # names that merely begin like an occurrence or like a reversal: `--no-<name>ly`, `--<name>x`, and a declared toggle
+    # `no-colorful` next to the reversible `color`
+    d4 = D([O("t", "color", "c", flag=True, dflt=1), O("t", "no-colorful", "f"), O("t", "verbose", "v", flag=True)], allowed=0)
+    al4 = ["--color", "--no-color", "--no-colorful", "--no-colorfully", "--no-colo", "--colorful", "--no-verbosely",
+           "--no-verbose", "--verbosex", "-c", "-f", "--no-no-colorful", "--no-colorx"]
+    for argv in og.all_argv(al4, 2):
+        out.append(pcase("C11", d4, {}, argv))
     out = with_histories(with_moved(out, rng, 6000 if tier == "thorough" else 1500), rng, 2400 if tier == "thorough" else 600)
     # a toggle declared *after* the parser has already parsed once counts like any other (declaration histories
     # with probe parses in between: the D engine of C13)
@@ -471,6 +489,16 @@ def gen_c14(tier, rng):
                     env[i.env] = rng.choice(["v", "TRUE", "off", "bad word"])
             steps.append((env, [rng.choice(al) for _ in range(rng.below(6))] if rng.chance(3, 4) else rng.choice(vecs)))
         out.append(hcase(dd, steps))
+    # declarations that are inconsistent and stay so (two options share a letter / an option is called no-<toggle>):
+    # every parse on such a parser is refused as a developer error - the second and third as well as the first
+    for db in (D([O("t", "a", "x"), O("o", "b", "x", flag=True)], allowed=None),
+               D([O("t", "x", "x", flag=True), O("o", "no-x", flag=True)], allowed=None),
+               D([O("m", "a", "m", flag=True), O("m", "b", "m", flag=True)], allowed=None)):
+        vb = [[], ["-x"], ["--no-x"], ["v"], ["--b", "1"], ["--zz"], ["-m", "1"]]
+        for a in vb:
+            for b in vb:
+                out.append(hcase(db, [({}, a), ({}, b)]))
+                out.append(hcase(db, [({}, a), ({}, b), ({}, a)]).replace("\tH\t", "\tHM\t", 1))
     # a second declaration: defaults of every kind, non-zero toggle defaults, a greedy limit
     d2 = D([O("t", "lvl", "l", dflt=2, flag=True), O("t", "on", "n", dflt=1), O("o", "out", "o", dflt="dv"),
             O("m", "inc", "I", dflt=["d1", "d2"]), O("o", "req", "r", env="NV_R", flag=True)], allowed=None, greedy=True)
